@@ -28,7 +28,7 @@ BASE = {
     "str": ["a", "b", "c", "d"], "date": [D1, D2, D3, D1], "datetime": [T1, T2, T3, T1], "object": [1, "a", 2.5, b"x"],
 }
 KIND = {"bool": bool, "int": int, "float": float, "complex": complex, "str": str, "date": date, "datetime": datetime, "object": object}
-SCALARS = [True, 7, 7.5, 7j, "z", b"q", D3, T3, None]
+SCALARS = [True, 7, 7.5, 7.0, -0.0, 7j, "z", b"q", D3, T3, None]      # 7.0 / -0.0: integral-valued floats are floats
 NUM = [bool, int, float, complex]
 PROMOTE_OK = {(int, float), (int, complex), (float, complex), (date, datetime)}
 
@@ -358,6 +358,15 @@ def unit_vector(unit):
             s0 = schema_of(v)
             fp0 = v.fingerprint()           # cached before the write
             before = obs(v)
+            # objects derived from v stay alive across the assignment (whole-range slice, copy, mask of everything, double reverse, sort):
+            # they are values of their own - the assignment must neither be refused because of them nor show through them
+            dk = VARIANT[0] % 6
+            try:
+                keep = [lambda: None, lambda: v[:], lambda: v[0:len(v)], lambda: v.copy(), lambda: v[[True] * len(v)], lambda: v[::-1][::-1]][dk]()
+            except Exception:
+                keep = None
+            keep_obs = obs(keep) if keep is not None else None
+            case["live_derived_object"] = ["none", "v[:]", "v[0:len(v)]", "v.copy()", "v[all-True mask]", "v[::-1][::-1]"][dk]
             key_obj, val_obj = real_key(kdesc), real_value(vd)
             key_img, val_img = _arg_image(key_obj), _arg_image(val_obj)
             try:
@@ -367,6 +376,12 @@ def unit_vector(unit):
                 raised = e
             agg.compared += 1
             site = f"setitem.{kdesc[0]}.{vd[0] if vd[0] != 'fault' else 'fault-' + vd[1]}"
+            if keep is not None and obs(keep) != keep_obs:
+                agg.violation(V(site, "assignment-shows-through-a-derived-object", case, keep_obs, obs(keep)))
+                continue
+            if raised is not None and type(raised).__name__ == "AliasError":
+                agg.violation(V(site, "valid-assignment-refused-AliasError", case, None, repr(raised)[:80]))
+                continue
             # Python's list assignment never touches the key or the value it is given
             if _arg_image(key_obj) != key_img or _arg_image(val_obj) != val_img:
                 agg.violation(V(site, "assignment-changed-its-" + ("key" if _arg_image(key_obj) != key_img else "value") + "-argument",
